@@ -589,8 +589,13 @@ class Discharger:
                     rep_lin = L.lin_const(int(b[0]))
                 else:
                     n = L.array_len_of_ty(f.locals[c.dest["l"]])
+                    m_ = re.search(r"\[u8; ([A-Za-z_]\w*)\]", f.locals[c.dest["l"]].get("t", ""))
                     if n is not None:
                         rep_lin = L.lin_const(n)
+                    elif b is not None and not b[1] and re.match(r"^[A-Za-z_]\w*$", b[0]):
+                        rep_lin = L.lin_var(("constparam", b[0]))       # bound to the caller's own const parameter
+                    elif m_:
+                        rep_lin = L.lin_var(("constparam", m_.group(1)))  # the array length named in the result type
                     else:
                         # still generic in the caller: keep the caller's own const parameter
                         rep_lin = L.lin_var(v)
@@ -921,7 +926,20 @@ def check(ctx, rep, prog, tag):
         if g.key not in views:
             # (named helpers are not folded in here: the length engine handles them through lifted
             # preconditions and Ok-summaries, which keeps the primitive boundary intact)
-            views[g.key] = inline(prog, g, pick=lambda call, t: False) if g.kind != "closure" else g
+            # ... except higher-order helpers: a helper that is handed a closure / function item at this
+            # call (`ensure(ok, || err)`, `split_at_least(b, n, || err)`, `with_key(.., |k| ..)`) is folded in
+            # together with the closure, which otherwise could only be analysed out of context
+            def hof(call, t):
+                if t.vis == "pub" or t.kind == "closure" or in_boundary(t):
+                    return False
+                for a in call.args:
+                    if a.get("k") == "const" and "fn_key" in a:
+                        return True
+                    ls_ = call.ctx_locals if call.ctx_locals is not None else call.fn.locals
+                    if a.get("k") in ("copy", "move") and not a["p"] and a["l"] < len(ls_) and ls_[a["l"]].get("k") == "closure":
+                        return True
+                return False
+            views[g.key] = inline(prog, g, pick=hof) if g.kind != "closure" else g
         return views[g.key]
     entries = [view(e) for e in entries]
     fns = [view(prog.by_key[k]) for k in scope if not in_boundary(prog.by_key[k]) or k in {e.key for e in entries}]
